@@ -410,7 +410,9 @@ func compareLayouts(c *Ctx, rule, key, pos string, enc, dec []codec.Atom) {
 			r.Fail(rule, key, pos, fmt.Sprintf("atom #%d: encoder [%s] vs decoder [%s]", i, es, ds))
 			return
 		}
-		if i < len(enc) && i < len(dec) && enc[i].Cond != dec[i].Cond {
+		// a zero-length guard around a variable-length atom (if n > 0 { read n bytes }) is harmless;
+		// optionality matters for fixed-width and nested atoms
+		if i < len(enc) && i < len(dec) && enc[i].Cond != dec[i].Cond && enc[i].Kind != "bytes" && enc[i].Kind != "repeat" {
 			r.Fail(rule, key, pos, fmt.Sprintf("atom #%d %s: conditional on one side only (encoder cond=%v, decoder cond=%v)", i, es, enc[i].Cond, dec[i].Cond))
 			return
 		}
